@@ -23,7 +23,7 @@ import (
 )
 
 type balancer struct {
-	nextIndex   uint32 // 原子操作指针（改为 uint32）
+	nextIndex   uint64 // 原子操作指针 (64 位: 实际上不会回绕, 回绕会打乱权重窗口)
 	roundRobinQ []int  // 权重扩展后的候选队列（只读，无需锁）
 	poolIndices []int  // 原始连接池下标（只读，无需锁）
 	poolWeights []int  // 连接池权重（只读，无需锁）
@@ -112,7 +112,7 @@ func (b *balancer) next() (int, error) {
 		return b.roundRobinQ[0], nil
 	}
 	// 无锁原子自增（自动处理溢出）
-	newIndex := atomic.AddUint32(&b.nextIndex, 1)
-	idx := int64(newIndex) % int64(len(b.roundRobinQ))
+	newIndex := atomic.AddUint64(&b.nextIndex, 1)
+	idx := newIndex % uint64(len(b.roundRobinQ))
 	return b.roundRobinQ[idx], nil
 }
